@@ -190,7 +190,21 @@ pub fn o_term(c: &Ctx, t: &Trace, out: &mut Vec<Violation>) {
 
 fn in_flight_at_return(prop: &'static str, t: &Trace, out: &mut Vec<Violation>) {
     let mut inflight: Vec<usize> = Vec::new();
+    let mut root_dropped = false;
     for e in &t.log {
+        if *e == Ev::RootDrop {
+            root_dropped = true;
+        }
+        if *e == Ev::Panic {
+            // after a panic the director tears the call down itself; the panic is reported elsewhere
+            return;
+        }
+        if let (Ev::Cancelled(f), false) = (e, root_dropped) {
+            // the CALLER has not dropped the call, so it is the library that dropped a user future
+            // it had started without driving it to completion
+            out.push(v(prop, "user-future-dropped-unfinished", format!("the user future of function {f} was started and then dropped by the call before it completed (the caller had not dropped the call)")));
+            return;
+        }
         if let Some(x) = hand(e) {
             inflight.push(x);
         } else if let Some(x) = gone(e) {
